@@ -1,0 +1,16 @@
+//go:build verif
+// +build verif
+
+package clusters
+
+import (
+	"time"
+)
+
+// Verification hooks (build tag "verif"): thin exports only, no behaviour.
+
+// VerifSetHealthCheckInterval changes the probe period used for endpoints
+// that are added to the cluster from now on (5 s by default).
+func VerifSetHealthCheckInterval(c *ClusterInfo, d time.Duration) {
+	c.healthCheckInterval = d
+}
